@@ -218,19 +218,24 @@ def build(ctx):
         for std in ("11", "14", "17", "20"):
             plan.append((std, "checked", allinst))
         plan.append(("17", "unchecked", allinst))
+    # constant-evaluation model (C++20, where every operation is constexpr): std::copy / copy_backward / fill / rotate run as the element-wise loops the constant evaluator executes
+    ce = [i for i in allinst if i[0] in (("uint16le_char", "uint8be_uint8") if ctx.quick else tuple(x[0] for x in allinst))]
+    plan.append(("20", "checked+ce", ce))
     for std, mode, sel in plan:
+        extra = hgen.CE_FLAGS if mode.endswith("+ce") else ()
+        mode, tag = mode.replace("+ce", ""), ("_consteval" if mode.endswith("+ce") else "")
         # one instantiation per unit: every query parses only the code it needs (there is one query per operation)
         for j in range(0, len(sel), 1):
             chunk = sel[j:j + 1]
-            u = ctx.lower("c13", cpp(chunk), std=std, mode=mode)
+            u = ctx.lower("c13" + tag, cpp(chunk), std=std, mode=mode, extra=extra)
             for inst in chunk:
                 text = harness(u, inst, cap, mode == "checked")
                 for k, opname in enumerate(OPS):
                     # one query per operation: a change that makes one operation expensive to decide cannot starve the verdicts on the others
-                    hs.append(P.Harness("%s_op%02d_%s_%s_cxx%s" % (inst[0], k, opname, mode, std), text, [u], unwind=cap + 3, cap=ctx.q(600, 1200), defines=["VERIF_WHICH=%d" % k],
+                    hs.append(P.Harness("%s_op%02d_%s_%s_cxx%s%s" % (inst[0], k, opname, mode, std, tag), text, [u], unwind=cap + 3, cap=ctx.q(600, 1200), defines=["VERIF_WHICH=%d" % k],
                                         desc="dynamic_array_ref<char,%s,%s,%s>: %s, one step from any state, vs. vector model (length prefix, payload, returned iterator, frame, no handler)" % (inst[1], inst[2], "BE" if inst[5] else "LE", opname),
                                         bounds={"CAP": cap, "source_len": "0..3", "std": "c++" + std, "build": mode, "operation": opname}))
-                hs.append(P.Harness("%s_widelen_%s_cxx%s" % (inst[0], mode, std), wide_len_harness(u, inst), [u], unwind=10, cap=ctx.q(120, 600), extra_flags=["--no-standard-checks"],
+                hs.append(P.Harness("%s_widelen_%s_cxx%s%s" % (inst[0], mode, std, tag), wide_len_harness(u, inst), [u], unwind=10, cap=ctx.q(120, 600), extra_flags=["--no-standard-checks"],
                                     desc="dynamic_array_ref<char,%s,%s,%s>: pop_back / resize(n, default_init) / clear / size / empty / end with the length prefix over the WHOLE range of its type" % (inst[1], inst[2], "BE" if inst[5] else "LE"),
                                     bounds={"length": "full range of the length type (< 2^48)", "n": "full range", "std": "c++" + std, "build": mode}))
     return hs
